@@ -187,4 +187,13 @@ CHECKS["C17"] = {
     "note": "Memory safety is observed by memcheck on generated sequences, not proved; preservation of well-formedness by every model operation is evaluated per run, not proved. The script side (what natives/orders do inside the interpreter) is not modelled.",
     "design_ref": "DESIGN.md §4 C17",
 }
+CHECKS["C01"] = {
+    "technique": "Lean 4 proof over M-Ops (ECMAScript operators and coercions on primitives) and M-Ctl (completion-record semantics of blocks, loops, labels, switch, try/catch/finally, temporal dead zone) + correspondence of both models with tsrun on exhaustive operand cross products and Lean-generated programs + differential against a reference engine (node, or golden outputs recorded from it) over operators x operand shapes, the built-in library and feature programs + reference-free equivalence of spellings",
+    "text": "Symmetry of ==/===, NaN and null/undefined rules, string concatenation, commutativity of number addition, the equivalent spellings (+v = v-0 = v*1, -v = v*-1 but not 0-v, a>b = b<a, != = !==) are Lean theorems over all values; "
+            "that a finally block keeps the pending completion when it ends normally and overrides it otherwise, that catch binds the thrown value, that break/continue reach exactly their own label and that a block-level let shadows from the start of its block (TDZ) "
+            "are Lean theorems over all programs, states and fuel. M-Ops is compared with tsrun on every pair of 45+ primitive operands x 14 binary and 5 unary operators; M-Ctl on 400 (quick) / 6000 (thorough) programs generated in Lean. "
+            "About 30k operator expressions over objects/arrays/functions/wrappers, 10-25k library calls with boundary arguments (NaN, -0, negative/fractional/out-of-range indices, empty and non-ASCII strings, holes), 100 feature programs x parameters and 8k+ pairs of equivalent spellings are evaluated on tsrun and compared with the reference engine / with each other.",
+    "note": "The core language beyond the two models (functions, classes, destructuring, generators, library) is covered by the differential only - sampled, not proved. The reference engine (V8) is trusted as the exhibit of the specification; implementation-defined and implementation-approximated results are relaxed as listed in checks/c01_corpus.py. Known findings: array holes, strings as code-point sequences, integer-key ordering, Function.prototype.toString text, array keys()/entries() returning arrays.",
+    "design_ref": "DESIGN.md §4 C01",
+}
 NOT_YET = {}
